@@ -183,6 +183,7 @@ var propertyClauses = map[string]clauseInfo{
 	},
 	"C05": {
 		decided: []string{
+			"lookForLinkOrImage: a ']' is paired with the nearest '[' / '![' opener on the delimiter stack and only if that opener is still active; an inactive opener is dropped and nothing is paired — together with finishLink: a '[' that precedes a completed link can never become a link itself (the tree-level consequence 'no link contains a link' is decided only by the bounded stand-in)",
 			"finishLink (link-in-link deactivation): after a link has been formed every '[' opener still on the delimiter stack below it has lost its active flag (image openers keep theirs), the opener and everything above it are consumed, and the other elements keep their identity; it uses processEmphasis's contract (the delimiters below stack_bottom are untouched, the ones above are consumed)",
 			"BOUNDED (not a proof; see coverage.bounded): the whole node grammar and the accessor clauses of the statement (list/item/marker, definition children, phrasing-only paragraphs and headings, code/HTML block children, link/image tails, no link in a link, no unparsed node) on the finished trees of every input up to the stated bound",
 			"accessors agree with the shape: HeadingLevel is the stored level for ATX/setext headings and 0 elsewhere; IsOrderedList/IsTightList are functions of the delimiter / looseness fields; ListItemNumber is -1 or 0..999999999; LinkDestination/LinkTitle return a child of that kind among the last two children, or nil; InfoString is the first inline child of a fenced block when it has that kind",
